@@ -247,7 +247,9 @@ func numberOfBloomFilterBits(n uint, r float64) uint {
 }
 
 func numberOfBloomFilterHashFunctions(s uint, n uint) uint {
-	return uint(math.Round(float64(s) / float64(n) * math.Log(2)))
+	// at least one hash function: for false positive rates above ~0.707 the optimum rounds to 0, and a filter
+	// without hash functions sets and tests no bit at all (every Exists answered "absent")
+	return max(1, uint(math.Round(float64(s)/float64(n)*math.Log(2))))
 }
 
 func (c *bloomFilter) Add(ctx context.Context, key string) error {
